@@ -506,6 +506,56 @@ fn corpus_cases(ctx: &Ctx, rng: &mut Rng) -> Vec<Case> {
         d.extend_from_slice(&[82, 0]);
         out.push(Case::Bytes("vocabulary/dist-header-new-entry".into(), d));
     }
+    // text whose multi-byte characters start at every byte offset: an ASCII run of every length 0..300 followed
+    // by two-, three- and four-byte characters, as an atom (UTF-8 and Latin-1 tags), a map key, a map value,
+    // the node of a pid, a binary and a STRING_EXT - whatever cuts, pads or displays text at a byte offset
+    // meets a character boundary it did not expect
+    {
+        let step = if ctx.quick() { 1 } else { 1 };
+        for k in (0..=300usize).step_by(step) {
+            let mut text = "a".repeat(k);
+            text.push_str(["\u{e9}\u{20ac}\u{1d518}tail", "\u{1d518}\u{e9}x", "\u{20ac}\u{20ac}"][k % 3]);
+            let tb = text.as_bytes();
+            let mut atom = vec![118u8];
+            atom.extend_from_slice(&(tb.len() as u16).to_be_bytes());
+            atom.extend_from_slice(tb);
+            let mut latin: Vec<u8> = vec![100];
+            let lb: Vec<u8> = std::iter::repeat(b'a').take(k).chain([0xe9u8, 0xfc, b'z']).collect();
+            latin.extend_from_slice(&(lb.len() as u16).to_be_bytes());
+            latin.extend_from_slice(&lb);
+            for a in [&atom, &latin] {
+                let mut bare = vec![131u8];
+                bare.extend_from_slice(a);
+                out.push(Case::Bytes("text-boundary/atom".into(), bare));
+                let mut key = vec![131u8, 116, 0, 0, 0, 1];
+                key.extend_from_slice(a);
+                key.extend_from_slice(&[97, 1]);
+                out.push(Case::Bytes("text-boundary/map-key".into(), key));
+                let mut val = vec![131u8, 116, 0, 0, 0, 1, 97, 1];
+                val.extend_from_slice(a);
+                out.push(Case::Bytes("text-boundary/map-value".into(), val));
+                let mut pid = vec![131u8, 88];
+                pid.extend_from_slice(a);
+                pid.extend_from_slice(&[0, 0, 0, 1, 0, 0, 0, 0, 0, 0, 0, 1]);
+                out.push(Case::Bytes("text-boundary/pid-node".into(), pid));
+                // nested: the key of a map inside a list inside a tuple (error paths are built on the way)
+                let mut nested = vec![131u8, 104, 2, 97, 0, 108, 0, 0, 0, 1, 116, 0, 0, 0, 1];
+                nested.extend_from_slice(a);
+                nested.extend_from_slice(&[255]); // the value is undecodable: an error that mentions the key
+                out.push(Case::Bytes("text-boundary/map-key-then-error".into(), nested));
+            }
+            let mut bin = vec![131u8, 109];
+            bin.extend_from_slice(&(tb.len() as u32).to_be_bytes());
+            bin.extend_from_slice(tb);
+            out.push(Case::Bytes("text-boundary/binary".into(), bin));
+            if tb.len() <= 65535 {
+                let mut st = vec![131u8, 107];
+                st.extend_from_slice(&(tb.len() as u16).to_be_bytes());
+                st.extend_from_slice(tb);
+                out.push(Case::Bytes("text-boundary/string-ext".into(), st));
+            }
+        }
+    }
     // random bytes
     for _ in 0..ctx.pick(3000usize, 200_000usize) {
         let n = rng.below(48);
